@@ -4,7 +4,7 @@ from . import c11 as C11
 
 ID = 'C13'
 PKG = '.'
-HARNESS_FILES = C11.HARNESS_FILES + ['zz_verif_life.go']
+HARNESS_FILES = C11.HARNESS_FILES + ['zz_verif_c10.go', 'zz_verif_life.go']
 KERNEL_PKGS = ['.']
 ROOTS = [r'v3\.verifHarness_C11_dispatch', r'v3\.verifHarness_C13', r'v3\.verifHarness_C14_read_failure']
 ALLOW = C11.ALLOW
